@@ -44,7 +44,7 @@ def vec_queries(Query, ops, cfgs, timeout=300, unwind=None):
     for d in cfgs:
         for op in ops:
             if d['VF_KIND'] == 0 and d['VF_CLS'] == 0 and op in NEEDS_NONEMPTY: continue     # an amc::vector without storage is empty
-            if 'input' in op: timeout = max(timeout, 600)
+            if 'input' in op or d['VF_E'] in ('R', 'X', 'Y'): timeout = max(timeout, 900)
             qs.append(Query('%s.%s' % (op, cfg_name(d)), 'vec_ops.cpp', 'h_' + op, defs=d, arena=arena_for(d), unwind=unwind or d['VF_MAXM'] + 2, timeout=timeout,
                             mem_gb=(5 if d['VF_E'] in ('R', 'X', 'Y') else 3) * (4 if op == 'insert_range_input' else 2 if ('input' in op or (d['VF_E'] in ('R', 'X', 'Y') and op.startswith(('insert_n', 'insert_range', 'insert_il', 'alias_insert_n')))) else 1),
                             optional_reach=(2,) if op in ('shrink_to_fit', 'reserve') else (),
